@@ -80,6 +80,8 @@ class Block:
         self.eta = []          # constructor paths to eta-expand where passed as a function value (R9)
         self.eta_found = {}
         self.head_all = None   # head text for every fn of the block (a fn's own `head` is put after it)
+        self.trait_decl_only = False  # R12 (`//@ decl-only`): a trait is emitted as declarations only (default bodies dropped, specs kept)
+        self.impl_to_generic = False  # R11: `x: &impl Trait` parameters become a named type parameter
         self.as_spec = None    # R10: emit the selected fn a second time as `pub closed spec fn <as_spec>` (its spec twin)
 
 
@@ -287,6 +289,10 @@ class Assembler:
                             cur_field = ('hint', d[5:].strip())
                         elif d == 'keep-attrs':
                             blk.keep_attrs = True
+                        elif d == 'decl-only':
+                            blk.trait_decl_only = True
+                        elif d == 'impl-trait-to-generic':
+                            blk.impl_to_generic = True
                         elif d == 'bare':
                             blk.bare = True
                         elif d == 'closure-params-to-let':
@@ -428,6 +434,8 @@ class Assembler:
         edits = []  # (start, end, new_text)
 
         def fn_edits(fn_item, tgt):
+            if blk.impl_to_generic:
+                self._impl_trait_edits(src, blk, fn_item, edits)
             if fn_item.st_body is None:
                 # trait method declaration without body: spec goes before ';'
                 if tgt and tgt.ret:
@@ -439,6 +447,14 @@ class Assembler:
             st = src.st
             if tgt and tgt.ret:
                 self._ret_edit(src, fn_item, tgt.ret, edits)
+            if blk.trait_decl_only:
+                # R12: the default body of a trait method is not emitted with the trait: the method becomes a
+                # declaration `fn sig <spec>;`.  The unit emits the same default text (extracted, `//@ bare`) inside the
+                # impl(s) it instantiates, which is what an impl that does not override the method inherits.
+                edits.append((st[a].start, st[b].end, '\n' + ((tgt.spec + '\n') if tgt and tgt.spec else '') + ';'))
+                self.rewrites.append('R12 %s:%d default body of trait fn %s not emitted with the trait (declaration only)'
+                                     % (blk.relpath, src.line_of(fn_item.kw_start), fn_item.name))
+                return
             if tgt and tgt.spec:
                 edits.append((st[a].start, st[a].start, '\n' + tgt.spec + '\n'))
             if blk.decl_only:
@@ -816,6 +832,65 @@ class Assembler:
     def _path(self, parents, item):
         names = [p.name for p in parents if p.name] + [item.name or item.kind]
         return ' :: '.join(names)
+
+    def _impl_trait_edits(self, src, blk, fn_item, edits):
+        """R11 (opt-in `//@ impl-trait-to-generic`): `fn f(x: &impl Tr)` -> `fn f<__RbvI1: Tr>(x: &__RbvI1)`: the
+        definition of impl-Trait in argument position (Rust reference: an anonymous type parameter).  This Verus
+        version does not terminate on a trait method declared with `impl Trait` in argument position."""
+        st = src.st
+        i0 = next(i for i, t in enumerate(st) if t.start >= fn_item.kw_start and t.text == 'fn')
+        end_off = fn_item.body_open if fn_item.body_open is not None else fn_item.end - 1
+        name_tok = i0 + 1
+        k = name_tok + 1
+        # skip existing generics
+        has_generics = st[k].text == '<'
+        if has_generics:
+            depth = 0
+            while True:
+                if st[k].text == '<':
+                    depth += 1
+                elif st[k].text == '>' and not (st[k - 1].text == '-' and st[k - 1].end == st[k].start):
+                    depth -= 1
+                    if depth == 0:
+                        break
+                k += 1
+            k += 1
+        if st[k].text != '(':
+            return
+        kc = match_close(st, k)
+        bounds = []
+        q = k + 1
+        while q < kc:
+            if st[q].kind == 'ident' and st[q].text == 'impl':
+                # bound = tokens up to the ',' or ')' at this nesting level
+                e = q + 1
+                depth = 0
+                while e < kc:
+                    tx = st[e].text
+                    if tx in '([<':
+                        depth += 1
+                    elif tx in ')]>' and not (tx == '>' and st[e - 1].text == '-' and st[e - 1].end == st[e].start):
+                        if depth == 0:
+                            break
+                        depth -= 1
+                    elif tx == ',' and depth == 0:
+                        break
+                    e += 1
+                bound = src.text[st[q + 1].start:st[e - 1].end]
+                nm = '__RbvI%d' % (len(bounds) + 1)
+                bounds.append((nm, bound))
+                edits.append((st[q].start, st[e - 1].end, nm))
+                q = e
+            else:
+                q += 1
+        if not bounds:
+            return
+        decl = ', '.join('%s: %s' % b for b in bounds)
+        if has_generics:
+            edits.append((st[name_tok + 1].end, st[name_tok + 1].end, decl + ', '))
+        else:
+            edits.append((st[name_tok].end, st[name_tok].end, '<' + decl + '>'))
+        self.rewrites.append('R11 %s:%d fn %s: impl-Trait parameter(s) named: %s' % (blk.relpath, src.line_of(fn_item.kw_start), fn_item.name, decl))
 
     def _ret_edit(self, src, fn_item, name, edits):
         """-> T   becomes   -> (name: T)"""
